@@ -143,6 +143,11 @@ def check_run(run, pre, classes):
                 out.append(("status", "unexpected status %s for %s" % (res, " ".join(op))))
                 continue
             add(unhex(op[1]), (h["inv"], h["ret"], "put", (op[2], op[3] == "1"), r))
+        elif o == "puti":
+            if res != "OK":
+                out.append(("status", "unexpected status %s for %s" % (res, " ".join(op))))
+                continue
+            add(unhex(op[1]), (h["inv"], h["ret"], "put", ("i%016x" % int(op[2], 16), False), "OK"))
         elif o == "remove":
             r = {"OK": "OK", "OK_NOT_FOUND": "NF", "OK_ROOT_IS_NULL": "NF"}.get(res)
             if r is None:
@@ -203,7 +208,7 @@ def check_run(run, pre, classes):
                     add(k, (h["inv"], h["ret"], "read", None, v))
             universe = set(perkey) | set(pre)
             for hh in run.h:
-                if hh["op"][0] in ("put", "remove", "get"):
+                if hh["op"][0] in ("put", "puti", "remove", "get"):
                     universe.add(unhex(hh["op"][1]))
             for k in universe:
                 if k in keys or not in_interval(k, lk, le, rk, re_):
